@@ -114,3 +114,23 @@ class DefaultActivation(rig.RecDecorator):
 
     def order(self):
         return rig.Plugin.order(self)
+
+
+# ---------------------------------------------------------------------------------------
+# auth providers (config SERVICE_AUTH_PROVIDER takes a dotted name)
+from deep.api.auth import AuthProvider  # noqa: E402
+
+
+class ApiKeyAuth(AuthProvider):
+    def provide(self):
+        return [('x-api-key', str(self._config.API_KEY))]
+
+
+class MultiAuth(AuthProvider):
+    def provide(self):
+        return [('authorization', 'Bearer t'), ('x-tenant', 'acme'), ('x-empty', '')]
+
+
+class RaisingAuth(AuthProvider):
+    def provide(self):
+        raise RuntimeError('no credentials')
